@@ -592,3 +592,140 @@ Proof.
   intros H -> Ht. unfold retransmissions_identical in H. apply retrans_app in H. destruct H as [_ H].
   cbn [retrans_from] in H. destruct H as [H _]. now rewrite Ht in H.
 Qed.
+
+(* ================= cooperative client with noise also in the lost rounds ================= *)
+Definition head_ge (T : Z) (evs : list event) : Prop :=
+  match evs with [] => True | Recv t _ _ :: _ => T <= t end.
+
+Lemma head_ge_noise T S nzs rest dl w : T <= S -> Forall (noise_ok w dl) nzs -> head_ge T rest ->
+  head_ge T (map (fun nz => noise_event (S + snd nz) (fst nz)) nzs ++ rest).
+Proof.
+  intros HS F Hr. destruct nzs as [|[x off] nzs]; [exact Hr|]. inversion F as [|? ? [Ho _] _]; subst.
+  cbn [map app fst snd] in *. destruct x; cbn [noise_event head_ge]; lia.
+Qed.
+
+Lemma head_ge_rounds T tm w : 0 < tm -> forall rounds R rest, T <= R ->
+  Forall (Forall (noise_ok w (tm - 1))) rounds -> head_ge T rest ->
+  head_ge T (round_events tm R rounds ++ rest).
+Proof.
+  intros Htm. induction rounds as [|nzs r IH]; intros R rest HR F Hr; cbn [round_events app]; [exact Hr|].
+  inversion F as [|? ? F1 F2]; subst. rewrite <- app_assoc.
+  apply (head_ge_noise T R nzs _ (tm - 1) w HR F1). apply IH; [lia|exact F2|exact Hr].
+Qed.
+
+(* a lost round with noise: the noise is consumed, the deadline stays where it was *)
+Lemma await_noise_late w R tm rest : 0 < tm -> head_ge (R + tm) rest -> forall nzs now, R <= now < R + tm ->
+  Forall (noise_ok w (tm - 1)) nzs ->
+  exists l, await current w now (R + tm) (map (fun nz => noise_event (R + snd nz) (fst nz)) nzs ++ rest)
+            = (OTimeout, R + tm, rest, l).
+Proof.
+  intros Htm Hr. induction nzs as [|[x off] nzs IH]; intros now Hn F; cbn [map app].
+  - rewrite await_lost; [eexists; reflexivity|lia|]. destruct rest as [|[t a d] rest]; [exact Logic.I|exact Hr].
+  - inversion F as [|? ? [Ho Hx] F']; subst. cbn [fst snd] in *.
+    destruct (IH (Z.max now (R + off)) ltac:(lia) F') as [l E].
+    destruct x as [n|a d]; cbn [noise_event await]; unfold sock_timeout;
+      destruct (Z.ltb_spec 0 (R + tm - now)) as [_|Hc']; try lia;
+      replace (now + (R + tm - now)) with (R + tm) by lia;
+      (destruct (Z.ltb_spec (R + off) (R + tm)); [|lia]).
+    + change (client =? client)%N with true. cbn [negb]. rewrite classify_ack_bytes.
+      destruct (N.eqb_spec n w); [contradiction|]. rewrite E. eexists. reflexivity.
+    + destruct (N.eqb_spec a client); [contradiction|]. cbn [negb]. rewrite E. eexists. reflexivity.
+Qed.
+
+Section GCoop.
+  Variable c : cfg.
+  Hypothesis v_cur : v c = current.
+  Hypothesis tm_pos : 0 < tmo c.
+
+  Lemma send_tries_gcoop p dlt nzs rest : 0 <= dlt < tmo c -> Forall (noise_ok (want p) dlt) nzs ->
+    forall rounds k now, (length rounds <= k)%nat ->
+    Forall (Forall (noise_ok (want p) (tmo c - 1))) rounds ->
+    let S := now + Z.of_nat (length rounds) * tmo c in
+    exists l, send_tries c (Datatypes.S k) p (want p) now
+                (round_events (tmo c) now rounds ++
+                 map (fun nz => noise_event (S + snd nz) (fst nz)) nzs ++ Recv (S + dlt) client (ack_bytes (want p)) :: rest)
+              = (OAcked, S + dlt, rest, l).
+  Proof.
+    intros Hd F. induction rounds as [|r1 rounds IH]; intros k now Hk FR; cbv zeta; cbn [round_events length app].
+    - destruct (send_tries_coop c v_cur tm_pos p dlt nzs rest Hd F 0%nat k now ltac:(lia)) as [l E].
+      cbv zeta in E. exact (ex_intro _ l E).
+    - destruct k as [|k]; [cbn in Hk; lia|]. inversion FR as [|? ? F1 F2]; subst.
+      rewrite send_tries_S, v_cur, <- app_assoc.
+      set (S := now + Z.of_nat (Datatypes.S (length rounds)) * tmo c).
+      assert (ES : S = now + tmo c + Z.of_nat (length rounds) * tmo c) by (subst S; lia).
+      match goal with |- context [await current ?w now (now + tmo c) (map ?f r1 ++ ?rest0)] =>
+        destruct (await_noise_late w now (tmo c) rest0 tm_pos) with (nzs := r1) (now := now) as [l1 E1];
+          [|lia|exact F1|] end.
+      { apply (head_ge_rounds _ (tmo c) (want p) tm_pos rounds (now + tmo c)); [lia|exact F2|].
+        apply (head_ge_noise _ S nzs _ dlt (want p)); [nia|exact F|]. cbn [head_ge]. nia. }
+      rewrite E1.
+      destruct (IH k (now + tmo c) ltac:(cbn in Hk; lia) F2) as [l2 E2]. cbv zeta in E2. rewrite <- ES in E2.
+      rewrite E2. eexists. reflexivity.
+  Qed.
+
+  Lemma send_blocks_gcoop : forall blocks blk now plans,
+    length plans = length (fst (number_blocks (wrap c) blk blocks)) ->
+    Forall (gplan_ok (tmo c) (retries c)) (combine (fst (number_blocks (wrap c) blk blocks)) plans) ->
+    exists n' l, send_blocks c blk blocks now
+                   (gscript_of (tmo c) now (combine (fst (number_blocks (wrap c) blk blocks)) plans))
+                 = (inr (if snd (number_blocks (wrap c) blk blocks) then EOverflow else EDone), n', [], l).
+  Proof.
+    induction blocks as [|b rest IH]; intros blk now plans Hl F; cbn [number_blocks send_blocks] in *.
+    - exists now, []. reflexivity.
+    - destruct (next_block (wrap c) blk) as [n|].
+      2:{ exists now, []. reflexivity. }
+      specialize (IH n). destruct (number_blocks (wrap c) n rest) as [lr orr]. cbn [fst snd] in *.
+      destruct plans as [|pl plans]; [discriminate Hl|]. cbn [combine gscript_of] in *.
+      inversion F as [|? ? (P1 & P2 & P3 & P4) F']; subst. cbn [fst snd] in *.
+      destruct (send_tries_gcoop (PData n b) (g_delta pl) (g_noises pl)
+                  (gscript_of (tmo c) (now + Z.of_nat (length (g_rounds pl)) * tmo c + g_delta pl) (combine lr plans))
+                  P2 P4 (g_rounds pl) (retries c) now P1 P3) as [l1 E1].
+      cbv zeta in E1. change (want (PData n b)) with n in E1 |- *. rewrite E1.
+      destruct (IH (now + Z.of_nat (length (g_rounds pl)) * tmo c + g_delta pl) plans ltac:(cbn in Hl; lia) F')
+        as (n2 & l2 & E2).
+      rewrite E2. eexists. eexists. reflexivity.
+  Qed.
+
+  Theorem transfer_completes_g oack blocks plans :
+    let pkts := exp_list oack (fst (number_blocks (wrap c) 0%N blocks)) in
+    length plans = length pkts ->
+    Forall (gplan_ok (tmo c) (retries c)) (combine pkts plans) ->
+    fst (transfer_r c oack blocks (gscript_of (tmo c) 0 (combine pkts plans))) =
+    inr (if snd (number_blocks (wrap c) 0%N blocks) then EOverflow else EDone).
+  Proof.
+    cbv zeta. intros Hl F. unfold transfer_r. destruct oack as [|oa1 oar]; cbn [exp_list] in *.
+    - destruct (send_blocks_gcoop blocks 0%N 0 plans Hl F) as (n' & l & E). rewrite E. reflexivity.
+    - destruct plans as [|pl plans]; [discriminate Hl|]. cbn [combine gscript_of] in *.
+      inversion F as [|? ? (P1 & P2 & P3 & P4) F']; subst. cbn [fst snd] in *.
+      destruct (send_tries_gcoop (POack (oa1 :: oar)) (g_delta pl) (g_noises pl)
+                  (gscript_of (tmo c) (0 + Z.of_nat (length (g_rounds pl)) * tmo c + g_delta pl)
+                     (combine (fst (number_blocks (wrap c) 0%N blocks)) plans))
+                  P2 P4 (g_rounds pl) (retries c) 0 P1 P3) as [l1 E1].
+      cbv zeta in E1. change (want (POack (oa1 :: oar))) with 0%N in E1 |- *. rewrite E1.
+      destruct (send_blocks_gcoop blocks 0%N (0 + Z.of_nat (length (g_rounds pl)) * tmo c + g_delta pl) plans
+                  ltac:(cbn in Hl; lia) F') as (n2 & l2 & E2).
+      rewrite E2. reflexivity.
+  Qed.
+End GCoop.
+
+Theorem case_delivers_g c plans : valid c ->
+  length plans = length (fst (expected c)) ->
+  Forall (gplan_ok (tmo (t_cfg c)) (t_retries c)) (combine (fst (expected c)) plans) ->
+  t_events c = gcoop_script c plans ->
+  ending_of c = inr (if snd (expected c) then EOverflow else EDone) /\
+  new_sends (run_transfer_case c) = fst (expected c) /\
+  (snd (expected c) = false -> delivered (run_transfer_case c) = wire_content c).
+Proof.
+  intros Hv Hl F Ev. unfold gcoop_script in Ev. rewrite expected_eq in *. cbn [fst snd] in *.
+  assert (E : ending_of c = inr (if snd (number_blocks (t_wrap c) 0%N (spec_blocks c)) then EOverflow else EDone)).
+  { unfold ending_of, run_r. rewrite (t_blocks_spec c Hv), Ev.
+    apply (transfer_completes_g (t_cfg c) (valid_cur c Hv) (valid_tm_pos c Hv)); assumption. }
+  split; [exact E|].
+  pose proof (transfer_safety (t_cfg c) (n_oack (t_neg c)) (spec_blocks c) (t_events c) (valid_cur c Hv))
+    as (_ & _ & _ & D).
+  unfold ending_of, run_r in E. rewrite (t_blocks_spec c Hv) in E.
+  destruct (D _ E) as [D1 D2]. cbn [wrap t_cfg] in D1, D2.
+  unfold run_transfer_case. rewrite (t_blocks_spec c Hv). split; [exact D1|].
+  intros Ho. unfold delivered. rewrite D1, payloads_exp_list, (payloads_numbered _ _ _ Ho).
+  now apply concat_spec_blocks.
+Qed.
